@@ -151,7 +151,7 @@ def tables(B):
     if B.thorough:
         out.append(Table("width1-bins", _var({"u": [0, 1, 2, 3], "v": [0, 1]})))
         out.append(Table("four-chroms-mixed", _var({"c1": [0, 4, 8, 11], "c2": [0, 5], "c3": [0, 4, 8], "c4": [0, 2, 9, 10]})))
-        for i in range(6):
+        for i in range(10):
             spec = {}
             for c in range(B.rng.randint(1, 4)):
                 if B.rng.random() < 0.5:
@@ -944,7 +944,7 @@ def main():
     TT = tables(B)
     q = not B.thorough
     B.bound = (f"{len(TT)} bin tables (fixed with short last bin, exact multiple, variable, one-bin chroms, single chrom, 3 chroms, long last bin, "
-               f"long one-bin chrom{', width-1 bins, 4 chroms mixed, 6 seeded random tables' if B.thorough else ''}). ENUMERATED per table: "
+               f"long one-bin chrom{', width-1 bins, 4 chroms mixed, 10 seeded random tables' if B.thorough else ''}). ENUMERATED per table: "
                "sanitize_records on every ordered pair of ALL positions 0..clen-1 of all chroms (+6 unknown-chromosome records) "
                + ("zero-based, and of all bin-edge positions one-based, " if q else "x {zero,one}-based ")
                + "x {reflect,drop,None} x {pairs schema; bg2 schema, enumerated chrom ids, chunk without dropped records"
@@ -952,7 +952,7 @@ def main():
                "tril incl. raise x {pairs,bg2,enumerated ids}" + (" (x 3 partners x 2 contexts on the first table)" if q else " x 3 partners x 2 contexts")
                + "; raise-mode one-record calls; sanitize_pixels on all (b1,b2) in [0,n)^2 x base x tril x sort; aggregate with NaN passenger; "
                "order x chunking on all bin-edge position pairs, ALL chunk sizes 1..len+1 on a 10-record multiset; create_cooler(unordered) end to end. "
-               f"CLI in-process on {'4 tables (+1 for out-of-bounds inputs)' if q else 'all named + 3 random tables'}: load bg2/coo x "
+               f"CLI in-process on {'4 tables (+1 for out-of-bounds inputs)' if q else 'all tables'}: load bg2/coo x "
                "{unique,duplex,square} x base x chunk sizes, same pixel across chunks, out-of-bounds starts/ids, --field placements (6 x 2); cload pairs x "
                f"modes x base x chunk sizes (+ default mergebuf), out-of-bounds, {'all 720' if B.thorough else 'the 24 positional + 6 ascending + 6 seeded'} "
                "column permutations of a 6-column file; cload tabix x base x max-split x 2 layouts, out-of-bounds pos1/pos2. SEEDED (representatives "
@@ -968,7 +968,7 @@ def main():
     units = []
     for k, T in enumerate(TT):
         named = not T.name.startswith("random")
-        do_cli = (named or k % 2 == 0) if B.thorough else T.name in cli_names
+        do_cli = True if B.thorough else T.name in cli_names
         do_inv = (named or k % 2 == 0) if B.thorough else T.name in inv_names
         units.append((f"table:{T.name}", unit_table, (T, k == 0, do_cli, do_inv, k < 1)))
     Tv = next(t for t in TT if t.name == "variable")
